@@ -184,9 +184,17 @@ def evolution_source(mutation_texts, deps=None, helpers=''):
 
 
 class Project(object):
-    def __init__(self, root=None):
+    def __init__(self, root=None, decoy=False):
         self.root = root or tempfile.mkdtemp(prefix='projlab_')
         self.apps = []
+        # decoy mode: every upgrade run targets the database under the alias
+        # `other`, while `default` is a decoy freshly installed at the very
+        # same version (everything applied and recorded there).  What a run
+        # does to its own database must not depend on the state of another
+        # one; the observed files and results are the same as without decoy.
+        self.decoy = decoy
+        self._decoys = {}
+        self.decoy_runs = 0
         with open(os.path.join(self.root, 'settings.py'), 'w') as f:
             f.write(SETTINGS)
 
@@ -330,6 +338,31 @@ class Router(object):
         })
         for a, v in (app_versions or {}).items():
             e['PL_V_' + a.upper()] = str(v)
+        if self.decoy and not db2 and not router and not (
+                args or {}).get('database') and action in (
+                'evolve_api', 'evolve_cmd', 'migrate_cmd', 'status'):
+            key = json.dumps([version, apps if apps is not None else
+                              self.apps, app_versions, migmods],
+                             sort_keys=True, default=str)
+            if key not in self._decoys:
+                name = 'decoy_%d.sqlite3' % len(self._decoys)
+                self._decoys[key] = None      # (no recursion)
+                saved, self.decoy = self.decoy, False
+                try:
+                    dv = self.run('evolve_api', version=version, db=name,
+                                  apps=apps, app_versions=app_versions,
+                                  migmods=migmods, env=env,
+                                  args={'no_facts_before': False})
+                finally:
+                    self.decoy = saved
+                if not dv.get('driver_error') and dv['outcome']['ok']:
+                    self._decoys[key] = name
+            if self._decoys.get(key):
+                e['PL_DB'] = self.path(self._decoys[key])
+                e['PL_DB2'] = self.path(db)
+                e['PL_SWAP'] = '1'
+                e['PL_ARGS'] = json.dumps(dict(args or {}, database='other'))
+                self.decoy_runs += 1
         if db2:
             e['PL_DB2'] = self.path(db2)
         if router:
